@@ -1,5 +1,6 @@
 import Driver.J
 import Driver.C17
+import Driver.Run
 open Lean
 
 partial def loop (h : IO.FS.Stream) (out : IO.FS.Stream) (f : Json → Json) : IO Unit := do
@@ -12,9 +13,16 @@ partial def loop (h : IO.FS.Stream) (out : IO.FS.Stream) (f : Json → Json) : I
   | .ok j => out.putStrLn (f j).compress
   loop h out f
 
+def generic (j : Json) : Json :=
+  match J.str (J.get j "k") with
+  | "run" => DrvRun.run j
+  | "lncol" => DrvC17.lncol j
+  | k => J.obj [("id", J.get j "id"), ("agree", false), ("spec", true), ("note", s!"unknown kind {k}")]
+
 def main (args : List String) : IO UInt32 := do
   let stdin ← IO.getStdin
   let stdout ← IO.getStdout
   match args with
   | ["C17"] => loop stdin stdout DrvC17.handle; return 0
+  | [_] => loop stdin stdout generic; return 0
   | _ => IO.eprintln "usage: drv <property>"; return 2
